@@ -187,6 +187,8 @@ pub struct Node {
     pub reloaded_lower_commit: bool,
     pub ticks_as_leader_with_transferee: usize,
     pub transferee_seen: Option<u64>,
+    /// ghost: in-flight window capacity last requested per peer (C18: a resize must not get lost)
+    pub want_cap: BTreeMap<u64, usize>,
 }
 
 impl Node {
@@ -297,6 +299,9 @@ pub struct World {
     pub state_hashes: fxhash::FxHashSet<u64>,
     /// probe for sampled differential queries (deterministic function of step_no)
     pub verbose: bool,
+    /// property in focus (other properties' monitor firings are counted, not fatal)
+    pub focus: Option<&'static str>,
+    pub suppressed: BTreeMap<&'static str, u64>,
 }
 
 pub fn new_entry_payload(id: u64, size: u32) -> Vec<u8> {
@@ -402,6 +407,7 @@ impl World {
                     reloaded_lower_commit: false,
                     ticks_as_leader_with_transferee: 0,
                     transferee_seen: None,
+                    want_cap: BTreeMap::new(),
                 },
             );
         }
@@ -421,6 +427,8 @@ impl World {
             trace_hash: 0,
             state_hashes: Default::default(),
             verbose: false,
+            focus: None,
+            suppressed: BTreeMap::new(),
         };
         let initial: Vec<NodeId> = w.cfg.voters.iter().chain(w.cfg.learners.iter()).cloned().collect();
         for id in initial {
@@ -627,7 +635,7 @@ impl World {
     /// Ready that carries them is not (fully) durable: the C06 promise check applies.
     pub fn release(&mut self, n: NodeId, msgs: Vec<Message>, early: bool) -> VResult<()> {
         for m in msgs {
-            self.check_release(n, &m, early)?;
+            { let r = self.check_release(n, &m, early); self.gate(r)?; }
             let seq = self.link_seq.entry((n, m.to)).or_insert(0);
             *seq += 1;
             let k = MsgKey { f: n, t: m.to, s: *seq };
@@ -705,6 +713,7 @@ impl World {
         node.commit_handed = node.hs_handed.commit;
         node.ghost_uncommitted.clear();
         node.transferee_seen = None;
+        node.want_cap.clear();
         if node.obs.commit < node.max_commit_ever {
             node.reloaded_lower_commit = true;
         }
@@ -715,7 +724,7 @@ impl World {
         let kind = CallKind::New;
         let ctx = CallCtx { n, kind: &kind, pre: &pre, post: &post, pre_unst: &pre_unst, emitted: &[], err: None };
         self.after_call(&ctx)?;
-        self.after_storage_op(n)?;
+        { let r = self.after_storage_op(n); self.gate(r)?; }
         Ok(())
     }
 
@@ -762,7 +771,8 @@ impl World {
         node.incarnation += 1;
         self.bump("restarts");
         self.boot(n)?;
-        self.check_restart(n)
+        let r = self.check_restart(n);
+        self.gate(r)
     }
 
     // ------------------------------------------------------------------------------------
@@ -783,7 +793,7 @@ impl World {
             Some(r) => r,
             None => return Ok(()),
         };
-        self.check_ready(n, has, &rd)?;
+        { let r = self.check_ready(n, has, &rd); self.gate(r)?; }
 
         // ---- 2. messages that may go out immediately (leader)
         let immediate = rd.take_messages();
@@ -798,7 +808,7 @@ impl World {
 
         // ---- read states
         for rs in rd.take_read_states() {
-            self.check_read_state(n, &rs)?;
+            { let r = self.check_read_state(n, &rs); self.gate(r)?; }
         }
 
         // ---- 3. snapshot
@@ -817,6 +827,10 @@ impl World {
         // ---- 4. entries
         if !rd.entries().is_empty() {
             let ents = rd.entries().clone();
+            if ents.windows(2).any(|w| w[1].index != w[0].index + 1) {
+                let d = format!("node {n}: Ready.entries() is not contiguous: indexes {:?}", ents.iter().map(|e| e.index).collect::<Vec<_>>());
+                return Err(self.violation("C07", "C07.persist_handoff", n, d, "entries_not_contiguous".into()));
+            }
             let node = self.nodes.get_mut(&n).unwrap();
             let r = catch_unwind(AssertUnwindSafe(|| node.disk.store.mem.wl().append(&ents)));
             match r {
@@ -829,7 +843,7 @@ impl World {
             }
             node.disk.model.append(&ents);
             node.disk.queue(WriteItem::Entries(ents));
-            self.after_storage_op(n)?;
+            { let r = self.after_storage_op(n); self.gate(r)?; }
         }
         // ---- 5. hard state
         if let Some(hs) = rd.hs() {
@@ -886,7 +900,7 @@ impl World {
                         None => return Ok(()),
                     }
                 };
-                self.check_light_ready(n, &light)?;
+                { let r = self.check_light_ready(n, &light); self.gate(r)?; }
                 if let Some(c) = light.commit_index() {
                     let node = self.nodes.get_mut(&n).unwrap();
                     let mut hs = node.disk.model.hs.clone();
@@ -895,7 +909,7 @@ impl World {
                     node.disk.model.hs = hs.clone();
                     node.disk.queue(WriteItem::HardState(hs));
                 }
-                self.check_leader_msgs(n, light.messages(), 0)?;
+                { let r = self.check_leader_msgs(n, light.messages(), 0); self.gate(r)?; }
                 let lmsgs = light.take_messages();
                 if !lmsgs.is_empty() {
                     let early = !self.nodes[&n].disk.wq.is_empty();
@@ -979,8 +993,9 @@ impl World {
         }
         node.sm = st.clone();
         node.disk.store.ctl.borrow_mut().snap_src = st;
-        self.check_snapshot_installed(n, &snap)?;
-        self.after_storage_op(n)
+        { let r = self.check_snapshot_installed(n, &snap); self.gate(r)?; }
+        let r = self.after_storage_op(n);
+        self.gate(r)
     }
 
     /// Apply up to `count` stashed entries. `notify`: call advance_apply_to afterwards
@@ -1039,7 +1054,7 @@ impl World {
                     }
                 }
             }
-            self.check_applied(n, &e)?;
+            { let r = self.check_applied(n, &e); self.gate(r)?; }
         }
         if applied_any || notify {
             let node = self.nodes.get_mut(&n).unwrap();
@@ -1105,7 +1120,8 @@ impl World {
         node.disk.model.compact(idx);
         node.disk.queue(WriteItem::Compact(idx, prev_term));
         self.bump("compactions");
-        self.after_storage_op(n)
+        let r = self.after_storage_op(n);
+        self.gate(r)
     }
 
     // ------------------------------------------------------------------------------------
@@ -1119,7 +1135,7 @@ impl World {
         if r.is_ok() {
             self.note_abstract(a);
             if self.step_no % 256 == 0 {
-                self.full_recheck()?;
+                { let r = self.full_recheck(); self.gate(r)?; }
             }
         }
         r
@@ -1296,7 +1312,10 @@ impl World {
                     }
                 }
             }
-            Action::Bogus { n, kind, from, term_delta } => self.bogus(*n, *kind, *from, *term_delta)?,
+            Action::Bogus { n, kind, from, term_delta } => {
+                let r = self.bogus(*n, *kind, *from, *term_delta);
+                self.gate(r)?;
+            }
             Action::Stabilise { seed, transfer } => self.stabilise(*seed, *transfer)?,
             Action::Lockstep { majority } => self.lockstep_round(majority)?,
         }
